@@ -502,12 +502,39 @@ pub fn stream_content(ty: u8, seed: u32, len: usize) -> Vec<u8> {
     gen::gen_bytes(len, seed ^ ((ty as u32) << 24) ^ 0x5151)
 }
 
+/// Overwrites every other 8-byte block of a record payload with a plausible record header for
+/// this very request (see `StreamSpec::build`).
+pub fn protocol_lookalike(payload: &mut [u8], ty: u8, id: u16, sel: u32) {
+    let mut k = 0usize;
+    while (k + 1) * 8 <= payload.len() {
+        if k % 2 == 0 {
+            let t = match (sel as usize + k / 2) % 4 { 0 | 1 => ty, 2 => T_ABORT, _ => if ty == T_STDIN { T_DATA } else { T_BEGIN } };
+            let block = [1u8, t, (id >> 8) as u8, id as u8, 0, 0, (sel >> 5) as u8 % 3, 0];
+            payload[k * 8..k * 8 + 8].copy_from_slice(&block);
+        }
+        k += 1;
+    }
+}
+
 impl StreamSpec {
     pub fn total(&self) -> usize {
         self.lens.iter().map(|&l| l.max(1) as usize).sum()
     }
     pub fn build(&self, id: u16) -> Vec<Rec> {
-        let content = stream_content(self.ty, self.seed, self.total());
+        let mut content = stream_content(self.ty, self.seed, self.total());
+        // One stream in eight carries payload that looks like protocol: every other 8-byte block
+        // (counted from the start of each record, where a stop on a caller-buffer boundary is
+        // likely to fall) is a header for this very request - the stream's own end marker, an
+        // AbortRequest, the end marker of the other input stream, a BeginRequest. A parser that
+        // ever interprets payload bytes as records is thereby fed plausible ones.
+        if self.seed % 8 == 3 {
+            let mut pos = 0usize;
+            for &l in &self.lens {
+                let l = l.max(1) as usize;
+                protocol_lookalike(&mut content[pos..pos + l], self.ty, id, self.seed / 8);
+                pos += l;
+            }
+        }
         let mut pos = 0;
         let mut out = Vec::new();
         for (i, &l) in self.lens.iter().enumerate() {
